@@ -131,3 +131,46 @@ func VerifC17TermRace() {
 	vapi.Assert(*info.UpCredit == 100-150, "C16/C17: the usage is charged exactly once whatever the overlap")
 	vapi.Reach("termrace-end")
 }
+
+// hookValve runs hook inside the first Nullify call: usage collection is the first step of a termination, so the
+// hook executes in the gap between "the last session is gone" and "the record is forgotten".
+type hookValve struct {
+	mux.Valve
+	hook func()
+	done bool
+}
+
+func (v *hookValve) Nullify() (int64, int64) {
+	if !v.done {
+		v.done = true
+		v.hook()
+	}
+	return v.Valve.Nullify()
+}
+
+// VerifC17Gap: a connection of the same user is admitted exactly between the closing of the user's last session and
+// the record being forgotten (deterministically, no scheduling involved): the termination that follows also closes
+// the session admitted in the gap, so no live session is left on a record the server no longer knows.
+func VerifC17Gap() {
+	w := vPanel()
+	w.addUser(vUIDs[0], 5, 1000, 1000, w.now+1000)
+	u0, s1, _, _ := w.admit(vUIDs[0], 1, "k1")
+	vapi.Assume(u0 != nil && s1 != nil)
+	var ub *ActiveUser
+	var ns *mux.Session
+	var nerr error
+	hv := &hookValve{Valve: u0.valve}
+	hv.hook = func() { ub, ns, _, nerr = w.admit(vUIDs[0], 2, "k2") }
+	u0.valve = hv
+	u0.CloseSession(1, "")
+	vapi.Assert(hv.done, "C17: closing the last session terminates the user (usage collected)")
+	vapi.Assert(s1.IsClosed(), "C17: the closed session is closed")
+	if nerr == nil && ns != nil && !ns.IsClosed() {
+		vapi.Assert(vIn(ns, w.reachable(vUIDs[0])), "C17: a session admitted while the user's last session was being closed is either closed by the termination or owned by a record the server knows")
+	}
+	_ = ub
+	// the server stays usable for this user
+	_, s3, _, err3 := w.admit(vUIDs[0], 3, "k3")
+	vapi.Assert(err3 == nil && s3 != nil && vIn(s3, w.reachable(vUIDs[0])), "C17: the user can connect again afterwards and is tracked")
+	vapi.Reach("gap-end")
+}
